@@ -16,8 +16,65 @@ fn describe(g: &CompositionGraph, id: NodeId, depth: usize) -> String {
     }
 }
 
+/// {"socket": wat, "plugs": [wat, ...]} -> wac_graph::plug on a fresh graph, then the wiring of the result
+fn run_plug(v: &Value) -> Value {
+    use wac_graph::{plug, types::Package, PlugError};
+    let mut g = CompositionGraph::new();
+    let reg = |g: &mut CompositionGraph, name: &str, w: &Value| {
+        let bytes = wat::parse_str(w.as_str().unwrap()).expect("wat");
+        let p = Package::from_bytes(name, None, bytes, g.types_mut()).expect("package");
+        g.register_package(p).expect("register")
+    };
+    let socket = reg(&mut g, "t:socket", &v["socket"]);
+    let plugs: Vec<_> = v["plugs"].as_array().unwrap().iter().enumerate().map(|(i, w)| reg(&mut g, &format!("t:plug{i}"), w)).collect();
+    let r = plug(&mut g, plugs, socket);
+    let result = match &r {
+        Ok(()) => "ok".to_string(),
+        Err(PlugError::NoPlugHappened) => "no-plug".to_string(),
+        Err(PlugError::GraphError { source }) => format!("graph-error: {source:#}"),
+    };
+    let pkg_name = |id: NodeId| g[id].package().map(|p| g[p].name().to_string());
+    let mut insts = vec![];
+    let mut socket_args = Map::new();
+    let mut exports = Map::new();
+    for id in g.node_ids() {
+        let n = &g[id];
+        if let NodeKind::Instantiation(_) = n.kind() {
+            insts.push(json!(pkg_name(id)));
+            if pkg_name(id).as_deref() == Some("t:socket") {
+                for (name, src) in g.get_instantiation_arguments(id) {
+                    let d = match g.get_alias_source(src) {
+                        Some((s, e)) => json!([pkg_name(s), e]),
+                        None => json!(describe(&g, src, 0)),
+                    };
+                    socket_args.insert(name.to_string(), d);
+                }
+            }
+        }
+        if let Some(e) = n.export_name() {
+            let d = match g.get_alias_source(id) {
+                Some((s, x)) => json!([pkg_name(s), x]),
+                None => json!(describe(&g, id, 0)),
+            };
+            exports.insert(e.to_string(), d);
+        }
+    }
+    let imports: Vec<String> = g.imports().map(|(n, _, _)| n.to_string()).collect();
+    let mut out = json!({"result": result, "instantiated": insts, "socket_args": socket_args, "exports": exports, "imports": imports});
+    if r.is_ok() {
+        match g.encode(EncodeOptions::default()) {
+            Ok(b) => out["valid"] = json!(wasmparser::Validator::new_with_features(wasmparser::WasmFeatures::all()).validate_all(&b).is_ok()),
+            Err(e) => out["encode_error"] = json!(format!("{e:#}")),
+        }
+    }
+    out
+}
+
 /// {"doc": source, "packages": {"ns:name[@ver]": wat}, "encode": bool}
-pub fn run(_op: &str, v: &Value) -> Value {
+pub fn run(op: &str, v: &Value) -> Value {
+    if op == "plug" {
+        return run_plug(v);
+    }
     let src = crate::str_field(v, "doc");
     let doc = match wac_parser::Document::parse(&src) {
         Ok(d) => d,
